@@ -296,6 +296,16 @@ pub fn cases(tier: Tier) -> Vec<Case> {
           calls.push((format!("{}\nr@ := w{}?\n{}.", f.define.replace("{n}", &format!("w{}", si)).replace("{v}", subj), si, body), e));
         }
         out.push(Case { family: "match-literal-kinds", def: String::new(), calls, locus: format!("match-{}:{}", f.name, sel.iter().map(|i| if f.arms[*i].1.is_none() { "wild".to_string() } else { format!("lit{}", f.arms[*i].2) }).collect::<Vec<_>>().join(",")) });
+        // the same arms as a match-arm function of one argument of that kind
+        let kind = match f.name { "string" => "string", "bool" => "bool", "u8" => "u8", _ => "i64" };
+        let def = format!("lf(q<{}>) => <f64>\n{}", kind, glyphs(&sel.iter().map(|i| f.arms[*i].0).collect::<Vec<_>>()));
+        let mut calls = vec![];
+        for (si, subj) in f.subjects.iter().enumerate() {
+          let first = sel.iter().find(|i| f.arms[**i].1.is_none() || f.arms[**i].1 == Some(si)).map(|i| f.arms[*i].2);
+          let e = match (first, has_wild) { (Some(v), true) => Expect::Val(f64s(v)), (Some(v), false) => Expect::ValOrError(f64s(v)), (None, _) => Expect::MustError };
+          calls.push((format!("{}\nr@ := lf(z{})", f.define.replace("{n}", &format!("z{}", si)).replace("{v}", subj), si), e));
+        }
+        out.push(Case { family: "fn-literal-kinds", def, calls, locus: format!("fn-{}:{}", f.name, sel.iter().map(|i| if f.arms[*i].1.is_none() { "wild".to_string() } else { format!("lit{}", f.arms[*i].2) }).collect::<Vec<_>>().join(",")) });
       }
     }
   }
